@@ -39,16 +39,9 @@ def global_state():
 
 
 class _EnvCategories:
-    """warning classes that announce 'this call will stop working': python's own and numpy's visible one"""
-
     def __iter__(self):
-        cats = [DeprecationWarning, PendingDeprecationWarning, FutureWarning]
-        try:
-            import numpy as np
-            cats.append(np.exceptions.VisibleDeprecationWarning)
-        except Exception:
-            pass
-        return iter(cats)
+        from .core import env_categories
+        return iter(env_categories())
 
 
 ENV_CATEGORIES = _EnvCategories()
@@ -164,10 +157,11 @@ def run_one(prop, case, ctx):
     signal.alarm(int(os.environ.get("RTMON_CASE_TIMEOUT", "150")))      # generous wall-clock watchdog: firing is inconclusive, never a verdict
     try:
         with warnings.catch_warnings(record=True) as wlog:
-            warnings.simplefilter("ignore")
             # warning tap: deprecation-class warnings attributed to a line of the library itself are recorded (everything else stays ignored)
-            for cat_ in ENV_CATEGORIES:
-                warnings.filterwarnings("always", category=cat_, module=r"npstructures(\.|$)")
+            from . import core as core_
+            core_.ENV_MODE[0] = "always"
+            core_.quiet_filters()
+            ctx.tick("warning-tap-armed")
             try:
                 if os.environ.get("RTMON_ERRSTATE") == "raise":
                     import numpy as np
@@ -182,10 +176,16 @@ def run_one(prop, case, ctx):
                     first_ = wlog[0]
                     where_ = "%s:%s %s: %s" % (os.path.basename(str(first_.filename)), first_.lineno, first_.category.__name__, str(first_.message)[:160])
                     with warnings.catch_warnings():
-                        warnings.simplefilter("ignore")
-                        for cat_ in ENV_CATEGORIES:
-                            warnings.filterwarnings("error", category=cat_, module=r"npstructures(\.|$)")
-                        res2 = FP.run(prop, case)
+                        core_.ENV_MODE[0] = "error"
+                        core_.quiet_filters()
+                        try:
+                            res2 = FP.run(prop, case)
+                        except tuple(ENV_CATEGORIES) as w_:
+                            # the warning-turned-error left the library in a call the driver makes on its way (building the receiver, reading a
+                            # result back): the first pass went through the very same calls without an exception
+                            res2 = violated("%s: %s" % (type(w_).__name__, str(w_)[:200]), list(res["tags"]))
+                        finally:
+                            core_.ENV_MODE[0] = "always"
                     if res2["verdict"] == VIOLATED:
                         res = violated("with deprecation warnings turned into errors (python -W error, pytest filterwarnings=error) -- the library line %s -- the same case fails: %s" % (where_, res2.get("msg")),
                                        list(res2["tags"]) + ["env:warnings-as-errors"])
@@ -252,6 +252,14 @@ def main(argv=None):
     warmed = warm_other_classes(lib) if (a.shard % 2 == 1 and not a.replay) else []
     if a.replay and json.load(open(a.replay)).get("other_classes_used_first"):
         warmed = warm_other_classes(lib)
+
+    # self-test of the warning tap: a deprecation warning attributed to a module of the library is recorded, one attributed to other code is not
+    with warnings.catch_warnings(record=True) as wl_:
+        from . import core as core_
+        core_.quiet_filters()
+        warnings.warn_explicit("self-test", DeprecationWarning, "selftest.py", 1, module="npstructures.selftest")
+        warnings.warn_explicit("self-test", DeprecationWarning, "selftest.py", 2, module="rtmon.selftest")
+        CTX.tick("warning-tap-selftest", len(wl_) == 1)
 
     out = open(a.out, "w")
     kept = {}
